@@ -59,14 +59,17 @@ func parseRec(b []byte) ([]ansi.Sequence, []int) {
 // cutPrints walks the bytes of one frame the way a terminal's lexer does and
 // returns the ordinals (among the frame's plainly printed grapheme clusters,
 // in output order) of the clusters that have a read boundary strictly inside
-// them, at a code point boundary; n is the number of clusters.
+// them - between two of their code points or inside one (a parser that does
+// not wait for the rest of a cluster may not wait for the rest of a code point
+// in the middle of one either; the library's has not since e714b12) -; n is the
+// number of clusters.
 func cutPrints(frame []byte, ends []int) (cut map[int]bool, n int) {
 	if len(ends) == 0 {
 		return nil, 0
 	}
 	isEnd := make(map[int]bool, len(ends))
 	for _, e := range ends {
-		if e > 0 && e < len(frame) && utf8.RuneStart(frame[e]) {
+		if e > 0 && e < len(frame) {
 			isEnd[e] = true
 		}
 	}
@@ -81,7 +84,8 @@ func cutPrints(frame []byte, ends []int) (cut map[int]bool, n int) {
 		gr := uniseg.NewGraphemes(run)
 		for gr.Next() {
 			l := len(gr.Str())
-			for e := off + 1; e < off+l; e++ {
+			// (a code point is delivered whole: a cluster of one cannot be cut)
+			for e := off + 1; e < off+l && utf8.RuneCountInString(gr.Str()) > 1; e++ {
 				if isEnd[e] {
 					cut[n] = true
 				}
